@@ -408,8 +408,15 @@ class HdlRecorder:
                 rec.kops.append([0, [bytes(spi), rec.addr(src), rec.addr(dst), int(ipsec_proto), int(mode), int(ip_proto),
                                      int(src_port), int(dst_port), bytes(sk_e) if sk_e is not None else b'',
                                      bytes(sk_a), int(lifetime)], None])
-            return inner_create_sa(cls, src_selector, dst_selector, src_port, dst_port, spi, ip_proto, ipsec_proto, mode,
-                                   src, dst, enc_algorithm, sk_e, auth_algorithm, sk_a, lifetime)
+            mark = len(rec.kops)
+            try:
+                return inner_create_sa(cls, src_selector, dst_selector, src_port, dst_port, spi, ip_proto, ipsec_proto,
+                                       mode, src, dst, enc_algorithm, sk_e, auth_algorithm, sk_a, lifetime)
+            finally:
+                # a call that raised before any request reached the kernel (an SPI that is not 4 bytes long does not
+                # fit the ctypes field: TypeError) is not a kernel operation
+                if rec.depth > 0 and len(rec.kops) == mark and rec.kops and rec.kops[-1][-1] is None:
+                    rec.kops.pop()
         st.enter_context(mock.patch.object(xfrm.Xfrm, 'create_sa', classmethod(create_sa)))
 
         inner_delete_sa = xfrm.Xfrm.delete_sa.__func__
@@ -417,7 +424,12 @@ class HdlRecorder:
         def delete_sa(cls, daddr, proto, spi):
             if rec.depth > 0:
                 rec.kops.append([1, rec.addr(daddr), int(proto), bytes(spi), None])
-            return inner_delete_sa(cls, daddr, proto, spi)
+            mark = len(rec.kops)
+            try:
+                return inner_delete_sa(cls, daddr, proto, spi)
+            finally:
+                if rec.depth > 0 and len(rec.kops) == mark and rec.kops and rec.kops[-1][-1] is None:
+                    rec.kops.pop()
         st.enter_context(mock.patch.object(xfrm.Xfrm, 'delete_sa', classmethod(delete_sa)))
 
         inner_ike = IkeSa.generate_ike_sa_key_material
